@@ -384,18 +384,7 @@ def run(ctx, prop):
         if not jobs:
             continue
         mod = g["path"][:-5].replace("/", ".")
-        text = f"import {mod}\nopen {g['namespace']}\n" + "\n".join(j[3] for j in jobs) + "\n"
-        tmp = os.path.join(core.LEAN, ".lake", f"xlate_selftest_{os.getpid()}.lean")
-        with open(tmp, "w") as f:
-            f.write(text)
-        try:
-            p = subprocess.run(["lake", "env", "lean", tmp], cwd=core.LEAN, capture_output=True, text=True, timeout=1500)
-        finally:
-            os.unlink(tmp)
-        got = p.stdout.splitlines()
-        if p.returncode != 0 or len(got) != len(jobs):
-            raise core.Infra(f"xlate selftest: lean exited {p.returncode} with {len(got)} lines for {len(jobs)} cases: "
-                             + (p.stdout + p.stderr)[-800:])
+        got = _eval_lean(f"import {mod}\nopen {g['namespace']}\n", [j[3] for j in jobs])
         for (fn, a, want, cmd), have in zip(jobs, got):
             total += 1
             report[fn.qualname] = report.get(fn.qualname, 0) + 1
@@ -407,6 +396,30 @@ def run(ctx, prop):
                 ctx.cov["xlate_selftest"] = {"cases": total, "per_function": report, "first_difference": fn.qualname}
                 return
     ctx.cov["xlate_selftest"] = {"cases": total, "per_function": report, "differences": 0}
+
+
+def _eval_lean(header, cmds, chunk=800, workers=3):
+    """output lines of the `#eval` commands (one line each), evaluated in chunks by up to `workers` lean processes"""
+    from concurrent.futures import ThreadPoolExecutor
+
+    def one(i):
+        part = cmds[i:i + chunk]
+        tmp = os.path.join(core.LEAN, ".lake", f"xlate_selftest_{os.getpid()}_{i}.lean")
+        with open(tmp, "w") as f:
+            f.write(header + "\n".join(part) + "\n")
+        try:
+            p = subprocess.run(["lake", "env", "lean", tmp], cwd=core.LEAN, capture_output=True, text=True, timeout=1500)
+        finally:
+            os.unlink(tmp)
+        out = p.stdout.splitlines()
+        if p.returncode != 0 or len(out) != len(part):
+            raise core.Infra(f"xlate selftest: lean exited {p.returncode} with {len(out)} lines for {len(part)} cases: "
+                             + (p.stdout + p.stderr)[-800:])
+        return out
+
+    with ThreadPoolExecutor(max_workers=workers) as ex:
+        parts = list(ex.map(one, range(0, len(cmds), chunk)))
+    return [l for part in parts for l in part]
 
 
 def _ordered_params(node, fn):
